@@ -1,4 +1,4 @@
 import SupervisorModel.Basic.DriverKit
 import SupervisorModel.Model.OutDisp
 def main : IO Unit := Sv.driverMain [("outdisp", Sv.OutDisp.runCase), ("strip", Sv.Strip.runCase),
-  ("boundio", Sv.OutDisp.runBound), ("fpae", Sv.OutDisp.runFpae)]
+  ("boundio", Sv.OutDisp.runBound), ("fpae", Sv.OutDisp.runFpae), ("wiring", Sv.OutDisp.runWiring)]
